@@ -353,7 +353,11 @@ class QueryHandler:
             if not is_unicast:
                 if known_answers_set is None:  # pragma: no branch
                     known_answers_set = known_answers.lookup_set()
-                self.question_history.add_question_at_time(question, now, known_answers_set)
+                # Known answers that belong to the other questions of the
+                # query say nothing about this one
+                self.question_history.add_question_at_time(
+                    question, now, {record for record in known_answers_set if question.answered_by(record)}
+                )
             answer_set = self._answer_question(
                 question, strategy.strategy_type, strategy.types, strategy.services, known_answers
             )
